@@ -21,7 +21,7 @@ PROPS = {
                 "denominations); a case is non-trivial when it is a distinct (operation, operands, outcome) triple; classes = operation x outcome kind",
         "assumptions": ["operands are valid values of their types (|Int| < 2^255, 0 <= Uint < 2^256)",
                         "*big.Int operand aliasing and 'valid coin operands are never mutated' are checked by the harness re-reading operands after each call, not in Lean",
-                        "DecCoins (types/dec_coin.go) is not modelled; denominations are ASCII (Go compares bytes, Lean code points)"],
+                        "DecCoins (types/dec_coin.go) has no Lean model: implementation-side monitors with a per-denomination oracle; denominations are ASCII (Go compares bytes, Lean code points)"],
         "trusted": ["math/big (the harness oracle computes exact rationals with it, independently of posmint)"],
     },
 }
@@ -352,7 +352,7 @@ MANIFEST_TEXT = {
                 "Model tied to types/*.go by a differential run on boundary-biased operands and independent math/big oracles; operand mutation "
                 "is checked on the implementation.",
         "note": "Lean kernel + 3 standard axioms; model hand-written (types/int.go, uint.go, decimal.go) and tied by T1; "
-                "constants maxBitLen/Precision/DecimalPrecisionBits regenerated from source; Dec.Quo/QuoRoundUp double rounding and Coins.IsEqual's panic are recorded known findings; DecCoins not modelled",
+                "constants maxBitLen/Precision/DecimalPrecisionBits regenerated from source; Dec.Quo/QuoRoundUp double rounding and Coins.IsEqual's panic are recorded known findings; DecCoins by monitors only",
         "technique": "Lean 4 proof over executable model + differential correspondence",
     },
 }
